@@ -144,7 +144,7 @@ def r16_3(ctx, rep, roles, pm):
                           "process_message; the configuration is immutable")
     fx = ctx.fx
     cs = roles.create_syn
-    eng = sym.Engine(fx, no_inline={roles.chitchat_compute_digest["id"], roles.scheduled_for_deletion_nodes["id"]})
+    eng = sym.Engine(fx, no_inline={roles.compute_digest["id"], roles.scheduled_for_deletion_nodes["id"]})
     rows = eng.table(cs["id"], arg_terms={1: ("ptr", ("S", "self"), ())})
     for row in rows:
         if row.exit == "backedge":
